@@ -74,6 +74,9 @@ type Shape struct {
 	NoLockKeys     bool
 	SmallValues    bool
 	MinFormat      sstable.TableFormat
+	MaxFormat      sstable.TableFormat // 0: newest
+	NoPoints       bool                // table without point keys (range dels / range keys only)
+	ForceRangeDels bool
 	NoValueBlocks  bool
 	ForceTwoLevel  int // 0 random, 1 force single, 2 force two-level
 }
@@ -95,14 +98,18 @@ func GenOptions(rng *rand.Rand, ks *KeySpace, sh Shape) (sstable.WriterOptions, 
 	if sh.MinFormat > minF {
 		minF = sh.MinFormat
 	}
-	nf := int(sstable.TableFormatMax-minF) + 1
+	maxF := sstable.TableFormatMax
+	if sh.MaxFormat != 0 && sh.MaxFormat < maxF {
+		maxF = sh.MaxFormat
+	}
+	nf := int(maxF-minF) + 1
 	f := minF + sstable.TableFormat(rng.IntN(nf))
-	if rng.IntN(3) == 0 { // bias towards the columnar formats
+	if rng.IntN(3) == 0 && maxF >= sstable.TableFormatPebblev5 { // bias towards the columnar formats
 		lo := sstable.TableFormatPebblev5
 		if minF > lo {
 			lo = minF
 		}
-		f = lo + sstable.TableFormat(rng.IntN(int(sstable.TableFormatMax-lo)+1))
+		f = lo + sstable.TableFormat(rng.IntN(int(maxF-lo)+1))
 	}
 	o.TableFormat = f
 	d.Format = f.String()
@@ -274,6 +281,9 @@ func GenData(rng *rand.Rand, t *Table, sh Shape) {
 	ks := t.KS
 	cmp := ks.Comparer.Compare
 	n := randCount(rng, sh)
+	if sh.NoPoints {
+		n = 0
+	}
 	shape := RandPrefixShape(rng)
 	maxTS := sh.MaxTS
 	if maxTS == 0 {
@@ -408,10 +418,10 @@ func GenData(rng *rand.Rand, t *Table, sh Shape) {
 		slices.SortFunc(bs, cmp)
 		return bs
 	}
-	if !sh.NoRangeDels && rng.IntN(3) == 0 {
+	if !sh.NoRangeDels && (sh.ForceRangeDels || rng.IntN(3) == 0) {
 		bs := genBounds(pick(rng, 1, 3, 10, 40))
 		for i := 0; i+1 < len(bs); i++ {
-			if rng.IntN(3) == 0 {
+			if rng.IntN(3) == 0 && !(sh.ForceRangeDels && len(t.RangeDels) == 0 && i+2 >= len(bs)) {
 				continue // gap
 			}
 			nk := 1 + rng.IntN(3)
